@@ -25,7 +25,8 @@ func init() {
 func runC09(p *Prog, r *Report) {
 	r.Min("C09.R1", 3)
 	r.Min("C09.R2", 2)
-	r.Min("C09.R3", 9)
+	r.Min("C09.R3", 10)
+	checkNoGlobalWrites(p, r, "C09.R3", "pkg/scan/socks5")
 	r.Min("C09.R4", 3)
 	r.Min("C09.R5", 5)
 	var scan *ssa.Function
